@@ -42,7 +42,7 @@ func ruleV4a(c *Ctx) *RuleResult {
 				}
 				for _, ref := range *t2.Referrers() {
 					if ex, ok := ref.(*ssa.Extract); ok && ex.Index == 1 {
-						conds := ifsOn(fn, func(v ssa.Value) bool { return v == ex })
+						conds := ifsOnV(fn, func(v ssa.Value) bool { return v == ex })
 						if len(conds) > 0 && onlyIf(fn, ta, conds, true) {
 							local = true
 						}
@@ -190,7 +190,7 @@ func (c *Ctx) calledOnlyAfterValidation(fn *ssa.Function, T types.Type) bool {
 			if v == nil || v == fn || !InRootPkg(v) || !instrDominates(call, e.Site) || !c.validatesType(v, T) {
 				return
 			}
-			conds := ifsOn(F, func(x ssa.Value) bool {
+			conds := ifsOnV(F, func(x ssa.Value) bool {
 				bo, ok := x.(*ssa.BinOp)
 				if !ok || bo.Op != token.NEQ {
 					return false
@@ -670,7 +670,7 @@ func (z *nzCtx) zeroInitCovered(f *types.Var, load ssa.Value) bool {
 		if b, ok := g.Type().Underlying().(*types.Basic); !ok || b.Kind() != types.Bool {
 			continue
 		}
-		conds := ifsOn(fn, func(v ssa.Value) bool { lf, _ := loadedField(v); return lf == g })
+		conds := ifsOnV(fn, func(v ssa.Value) bool { lf, _ := loadedField(v); return lf == g })
 		if len(conds) == 0 || !onlyIf(fn, li, conds, true) {
 			continue
 		}
